@@ -147,7 +147,12 @@ func OpenReadWriteFile(f *os.File, roots []cid.Cid, opts ...carv2.Option) (*Read
 	rwbs.ronly.idx = rwbs.idx
 
 	if resume {
-		if err = store.ResumableVersion(f, rwbs.opts.WriteAsCarV1, opts...); err != nil {
+		// Read the version from the start of the file, wherever the file's own cursor stands.
+		var vr internalio.ReadSeekerAt
+		if vr, err = internalio.NewOffsetReadSeeker(f, 0); err != nil {
+			return nil, err
+		}
+		if err = store.ResumableVersion(vr, rwbs.opts.WriteAsCarV1, opts...); err != nil {
 			return nil, err
 		}
 		if err = store.Resume(
